@@ -64,9 +64,10 @@ func main() {
 		_, err := font.ParseTTF(bytes.NewReader(file))
 		fmt.Println("ok cff, error:", err)
 	}()
-	func() {
-		// a complete gvar table with ONE axis (fvar has 4): no shared tuple, data for glyph `gid` only: one tuple with an
-		// embedded peak, applying to all points, all deltas zero
+	gvarCase := func(name string, axisCount int, shared bool) {
+		// a complete gvar table whose axis count differs from fvar's (4): data for glyph `gid` only: one tuple applying to
+		// all points, all deltas zero; its peak is embedded (axisCount values) or is the shared tuple 0, which is non-zero on
+		// the last axis only
 		const gid = 40
 		orig, _ := td.Files.ReadFile("common/Commissioner-VF.ttf")
 		ld, _ := ot.NewLoader(bytes.NewReader(orig))
@@ -101,15 +102,29 @@ func main() {
 			serialized = append(serialized, 0x80|byte(run-1)) // a run of zero deltas
 			left -= run
 		}
-		data := []byte{0, 1, 0, 10} // one tuple, serialized data at 10
-		data = append(data, 0, byte(len(serialized)), 0x80, 0, 0x40, 0x00)
+		var header []byte // tuple variation header: data size, tuple index (+ embedded peak)
+		if shared {
+			header = []byte{0, byte(len(serialized)), 0, 0}
+		} else {
+			header = []byte{0, byte(len(serialized)), 0x80, 0}
+			for a := 0; a < axisCount; a++ {
+				header = append(header, 0x40, 0x00)
+			}
+		}
+		data := []byte{0, 1, 0, byte(4 + len(header))} // one tuple, then the offset of the serialized data
+		data = append(data, header...)
 		data = append(data, serialized...)
 		if len(data)%2 == 1 {
 			data = append(data, 0)
 		}
-		gvar := []byte{0, 1, 0, 0, 0, 1, 0, 0, 0, 0, 0, 0, byte(numGlyphs >> 8), byte(numGlyphs), 0, 0, 0, 0, 0, 0}
+		nShared := 0
+		if shared {
+			nShared = 1
+		}
+		gvar := []byte{0, 1, 0, 0, 0, byte(axisCount), 0, byte(nShared), 0, 0, 0, 0, byte(numGlyphs >> 8), byte(numGlyphs), 0, 0, 0, 0, 0, 0}
 		arrayOffset := 20 + 2*(numGlyphs+1)
 		binary.BigEndian.PutUint32(gvar[16:], uint32(arrayOffset))
+		binary.BigEndian.PutUint32(gvar[8:], uint32(arrayOffset+len(data))) // shared tuples after the data
 		for g := 0; g <= numGlyphs; g++ {
 			off := 0
 			if g > gid {
@@ -118,6 +133,11 @@ func main() {
 			gvar = append(gvar, byte(off>>8), byte(off))
 		}
 		gvar = append(gvar, data...)
+		if shared {
+			tuple := make([]byte, 2*axisCount)
+			tuple[2*axisCount-2] = 0x40
+			gvar = append(gvar, tuple...)
+		}
 		file := replace("common/Commissioner-VF.ttf", "gvar", func([]byte) []byte { return gvar })
 		fnt, err := font.ParseTTF(bytes.NewReader(file))
 		if err != nil {
@@ -126,7 +146,7 @@ func main() {
 		}
 		defer func() {
 			if r := recover(); r != nil {
-				fmt.Println("DEFECT gvar: the file loads and GlyphExtents at a varied position panics:", r)
+				fmt.Printf("DEFECT %s: the file loads and GlyphExtents at a varied position panics: %v\n", name, r)
 				bad = true
 			}
 		}()
@@ -134,8 +154,10 @@ func main() {
 		face.SetVariations([]font.Variation{{Tag: ot.MustNewTag("wght"), Value: 900}, {Tag: ot.MustNewTag("slnt"), Value: -12},
 			{Tag: ot.MustNewTag("FLAR"), Value: 100}, {Tag: ot.MustNewTag("VOLM"), Value: 100}})
 		face.GlyphExtents(font.GID(gid))
-		fmt.Println("ok gvar")
-	}()
+		fmt.Println("ok", name)
+	}
+	gvarCase("gvar with fewer axes than fvar", 1, false)
+	gvarCase("gvar with more axes than fvar (shared tuple active on the last one)", 6, true)
 	if bad {
 		os.Exit(1)
 	}
